@@ -153,6 +153,10 @@ func c04History(c *Case) {
 	env := &xgen.Env{Doc: d0, Ctx: pickCtx(g, d0), Names: xgen.Names}
 	e := anyExpr(g, env)
 	src := xref.Render(e)
+	if g.Chance(0.15) {
+		// token-level text that ignores typing: evaluations that abort deliberately are part of a history too
+		src = g.TokExpr(1+g.Intn(3), false)
+	}
 	used, err := safeCompile(src)
 	if err != nil {
 		c.Skip("rejected by Compile (the business of other properties)")
